@@ -38,6 +38,12 @@ func (f PreconditionNotMet) Error() string {
 	return "verif: replay input outside precondition " + f.Name
 }
 
+// NotExecutable is panicked during a replay by ghost functions that have no executable reading
+// (they talk about an earlier state).
+type NotExecutable struct{ What string }
+
+func (f NotExecutable) Error() string { return "verif: not executable: " + f.What }
+
 // Requires states a precondition of the contract it appears in.
 func Requires(name string, cond bool) {
 	if !cond {
@@ -100,13 +106,10 @@ func Exists[T any](f func(T) bool) bool {
 	return false
 }
 
-// oldValues carries values captured before the call under contract during a replay.
-var oldValues = map[string]any{}
-
 // Old evaluates f in the state before the call under contract (in a loop invariant: on entry to
 // the function). During a replay the value must have been captured with Capture.
 func Old[T any](f func() T) T {
-	return f()
+	panic(NotExecutable{"Old"})
 }
 
 // Any is an arbitrary value of T.
@@ -117,7 +120,7 @@ func Any[T any]() T {
 
 // Visited reports whether key k has already been produced by the range loop over m that the
 // invariant is attached to.
-func Visited[K comparable, V any](m map[K]V, k K) bool { return false }
+func Visited[K comparable, V any](m map[K]V, k K) bool { panic(NotExecutable{"Visited"}) }
 
 // Implies is logical implication (both sides are evaluated).
 func Implies(a, b bool) bool { return !a || b }
@@ -143,4 +146,26 @@ func Same[T any](a, b T) bool {
 }
 
 // Fresh reports that the object r refers to did not exist before the call under contract.
-func Fresh[T any](r T) bool { return true }
+func Fresh[T any](r T) bool { panic(NotExecutable{"Fresh"}) }
+
+// State is a handle on a program state taken with Snapshot.
+type State struct{ id int }
+
+// Snapshot names the current state, so that a lemma with several calls can refer to it later.
+func Snapshot() State { return State{} }
+
+// At evaluates f in the state s (variables captured by f keep their current values).
+func At[T any](s State, f func() T) T { panic(NotExecutable{"At"}) }
+
+// Since evaluates f in the current state, with Old and Fresh inside f referring to the state s.
+func Since[T any](s State, f func() T) T { panic(NotExecutable{"Since"}) }
+
+// FreshSince reports that the object r refers to was allocated after state s.
+func FreshSince[T any](s State, r T) bool { panic(NotExecutable{"FreshSince"}) }
+
+// Lemma is Assert whose statement is also made available to the assertions that follow it.
+func Lemma(name string, cond bool) {
+	if !cond {
+		panic(Failure{name})
+	}
+}
